@@ -113,12 +113,16 @@ class ExponentialOfLevyModel(LevyModel):
             cumulant=levy_model.cumulant,
         )
         self.spot = spot
-        self.log_spot = np.log(spot)
         self.r = r
         self.d = d
         self.levy_model = levy_model
         self.omega = -levy_model.levy_exponent(x=-1j).real
         # the imaginary part is 0, we use `.real` to enforce the float type
+
+    @property
+    def log_spot(self) -> float:
+        """logarithm of the (current) spot: the spot may be re-assigned after the construction"""
+        return np.log(self.spot)
 
     def __str__(self):
         cls = self.__class__.__name__
